@@ -12,16 +12,13 @@ from ..cfg import conj_atoms
 PN = 'yatiml.loader:Loader.__process_node'
 REC = 'yatiml.recognizer:Recognizer.'
 
-_fn_cache: Dict[Tuple[int, str], Fn] = {}
-
-
 def fn(P: Program, key: str) -> Fn:
-    k = (id(P), key)
-    if k not in _fn_cache:
-        if len(_fn_cache) > 400:
-            _fn_cache.clear()
-        _fn_cache[k] = Fn(P.func(key))
-    return _fn_cache[k]
+    # the cache lives on the program object itself: a cache keyed by id(P) hands out facts of a dead program when a worker
+    # process analyses several variants one after the other and the id is reused
+    cache = P.__dict__.setdefault('_fn_cache', {})
+    if key not in cache:
+        cache[key] = fn_of(P.func(key))
+    return cache[key]
 
 
 def is_none_test(atoms, names: Set[str]) -> bool:
@@ -2418,16 +2415,11 @@ def _site_tag(fi: FunctionInfo, c: ast.Call) -> str:
     return 'string' if len(c.args) <= 1 else 'sink'
 
 
-_fnobj_cache: Dict[str, Fn] = {}
-
-
 def fn_of(fi: FunctionInfo) -> Fn:
-    k = '%d:%s' % (id(fi), fi.key)
-    if k not in _fnobj_cache:
-        if len(_fnobj_cache) > 300:
-            _fnobj_cache.clear()
-        _fnobj_cache[k] = Fn(fi)
-    return _fnobj_cache[k]
+    f = fi.__dict__.get('_fn_facts')
+    if f is None:
+        f = fi.__dict__['_fn_facts'] = Fn(fi)
+    return f
 
 
 def r12_sinks(ctx):
